@@ -495,3 +495,68 @@ func reachesAlloc(f *ssa.Function, b, to *ssa.BasicBlock, al *ssa.Alloc) bool {
 	r, _ := ssax.Reach(f, first, func(in ssa.Instruction) bool { return in == ssa.Instruction(al) }, nil, nil)
 	return r
 }
+
+// pssSaltRule: RSA-PSS signatures are produced with a salt as long as the hash (Part 7, RSA-PSS-SHA2-256): every
+// rsa.SignPSS call in uapolicy passes PSSOptions whose SaltLength is the constant rsa.PSSSaltLengthEqualsHash. The zero
+// value means "as long as the key allows" in Go; the library's own Verify auto-detects the salt and would not notice,
+// a conforming peer rejects the signature.
+func pssSaltRule(c *core.Ctx, rule string) {
+	var optsOf func(v ssa.Value, d int) []*ssa.Alloc
+	optsOf = func(v ssa.Value, d int) []*ssa.Alloc {
+		v = ssax.Strip(v)
+		if d > 3 {
+			return nil
+		}
+		switch x := v.(type) {
+		case *ssa.Alloc:
+			return []*ssa.Alloc{x}
+		case *ssa.Call:
+			if h := x.Call.StaticCallee(); h != nil && len(h.Blocks) > 0 {
+				var out []*ssa.Alloc
+				for _, r := range ssax.Returns(h) {
+					if len(r.Results) > 0 {
+						out = append(out, optsOf(ssax.RetVal(r, 0), d+1)...)
+					}
+				}
+				return out
+			}
+		case *ssa.Phi:
+			var out []*ssa.Alloc
+			for _, e := range x.Edges {
+				out = append(out, optsOf(e, d+1)...)
+			}
+			return out
+		}
+		return nil
+	}
+	n := 0
+	for _, f := range libFns(c, "uapolicy") {
+		for _, call := range ssax.Calls(f) {
+			cal := ssax.Callee(call)
+			if cal == nil || cal.Pkg() == nil || cal.Pkg().Path() != "crypto/rsa" || cal.Name() != "SignPSS" {
+				continue
+			}
+			n++
+			args := call.Common().Args
+			opts := args[len(args)-1]
+			allocs := optsOf(opts, 0)
+			ok := len(allocs) > 0
+			detail := "SaltLength = rsa.PSSSaltLengthEqualsHash"
+			if len(allocs) == 0 {
+				detail = "PSSOptions are nil or not a literal: Go then uses the maximum salt length, not the hash length"
+			}
+			for _, al := range allocs {
+				v, has := litFields(al)["SaltLength"]
+				k, isK := ssax.ConstInt(v)
+				if !has || !isK || k != -1 {
+					ok = false
+					detail = "PSSOptions.SaltLength is not rsa.PSSSaltLengthEqualsHash (unset means PSSSaltLengthAuto = as long as the key allows)"
+				}
+			}
+			c.Ob(rule, fname(f)+"·rsa.SignPSS salt length", pos(c, call), ok, detail)
+		}
+	}
+	if n == 0 {
+		c.Ob(rule, "uapolicy·rsa.SignPSS salt length", "-", false, "no rsa.SignPSS call found: the RSA-PSS suite is not implemented with crypto/rsa any more")
+	}
+}
